@@ -112,6 +112,11 @@ def main(prop, build_jobs, harnesses, assumptions, describe=None):
             kf_lines.append(line)
     # 2. explore
     jobs = build_jobs(tier, seed)
+    for j in jobs:
+        if j.budget is None:
+            # a job that does not finish is reported as inconclusive (exit 2),
+            # never as success
+            j.budget = 1500 if tier == 'quick' else 5400
     if a.only:
         jobs = [j for j in jobs if a.only in j.harness.name or
                 a.only in json.dumps(j.params, sort_keys=True, default=str)]
